@@ -42,6 +42,7 @@ class Harness:
     native_check: bool = True       # cross-check paths in concrete mode
     kind: str = 'vc'                # 'vc' | 'bounded' | 'lemma'
     heavy: bool = False             # only in thorough tier
+    clause_props: dict = dataclasses.field(default_factory=dict)   # clause -> the properties it counts for (default: all of props)
     replayable: bool = True
 
 
